@@ -1,7 +1,7 @@
 """C20 - diagnostics point at the offending source position.
 
 Generator: nesting trees (main file, nested include files, macro calls, REPT / IRP / IRPN / IRPC / WHILE bodies, dead
-REPT 0 / WHILE 0 bodies, continuation lines) with self-contained faulty lines planted at chosen lines; the real asl is run
+REPT 0 / WHILE 0 bodies, continuation lines - also inside block bodies in front of faulty lines, counted in the distribution) with self-contained faulty lines planted at chosen lines; the real asl is run
 with -x 0..2, -n, -gnuerrors and -E <file> / !1 / !2 / default; the error channel is parsed for the prefix in front of every
 message text.
 (B) the prefix list is compared with the Lean model of the input-tag chain (Model/Pos.lean, `run`),
@@ -38,6 +38,16 @@ ARG_POOL = ["5", "6", "7", "12", "AB", "cd", "Q9", "(1+2)", "0", "Z"]
 IRPC_POOL = "abcxyzQR0189"
 
 
+def irpc_string(r, n):
+    """the string of an IRPC statement.  Inside the body of an enclosing IRP the parameter of that IRP (`x<number>`) is replaced
+    also inside string literals: `irp x1,AB,Z` / `irpc c,"x1"` iterates over "AB" and "Z".  The generator counts iterations from
+    the text it writes, so a string that spells such a parameter name is drawn again."""
+    while True:
+        s = "".join(r.choice(IRPC_POOL) for _ in range(n))
+        if not re.search(r"[xX][0-9]", s):
+            return s
+
+
 class Gen:
     def __init__(self, rng, cls):
         self.rng = rng
@@ -48,12 +58,12 @@ class Gen:
         self.files = {}         # name -> body
         self.macros = []        # (name, body)
         self.faults = {}        # id -> dict(kind, col, warn, num, rep)
-        self.stats = dict(cont_lines=0, faults=0)
+        self.stats = dict(cont_lines=0, faults=0, cont_in_block_body=0, fault_behind_cont_in_block_body=0)
 
-    def cont(self, text):
-        """split a logical line over 1..3 physical lines"""
+    def cont(self, text, rate=0.2):
+        """split a logical line over 1..3 physical lines (`rate`: how often)"""
         r = self.rng
-        if r.random() < 0.8:
+        if r.random() >= rate:
             return [text]
         k = r.choice([2, 2, 3])
         cuts = sorted(r.randrange(1, len(text) + 1) for _ in range(k - 1))
@@ -66,15 +76,15 @@ class Gen:
         self.stats["cont_lines"] += 1
         return pieces
 
-    def plain(self):
+    def plain(self, rate=0.2):
         t = self.rng.choice([" nop", " nop", " ld a,b", " db 1,2,3", " ld hl,1234", " nop ; comment"])
-        return ("plain", t, self.cont(t))
+        return ("plain", t, self.cont(t, rate))
 
     def fresh_var(self):
         self.nvar += 1
         return self.nvar
 
-    def fault(self):
+    def fault(self, rate=0.2):
         r = self.rng
         self.nid += 1
         i = self.nid
@@ -98,19 +108,34 @@ class Gen:
         self.faults[i] = dict(kind=kind, col=col, warn=(kind == "uwarn"), num=KIND_NUM.get(kind),
                               rep=not (kind == "undef" and self.cls == "A"))
         self.stats["faults"] += 1
-        return ("fault", kind, i, t, self.cont(t))
+        return ("fault", kind, i, t, self.cont(t, rate))
 
-    def body(self, depth, mult, minlen=1):
+    def body(self, depth, mult, minlen=1, block=False):
+        """block: the body of a REPT/IRP/IRPN/IRPC/WHILE block.  Its lines are stored joined; a continuation line there moves the
+        ENDM line (the line the file frame names) but not the body line numbers.  Every third block body gets continuation
+        lines at a high rate, so that faulty lines behind a continued body line are frequent."""
         r = self.rng
         n = r.choice([1, 1, 2, 2, 3, 4, 5]) if depth > 0 else r.randrange(3, 9)
         n = max(n, minlen)
         out = []
+        rate = 0.5 if (block and r.random() < 0.34) else 0.2
+        seen_cont = False
         for _ in range(n):
             x = r.random()
             if x < 0.30:
-                out.append(self.plain())
+                it = self.plain(rate)
+                if block and len(it[2]) > 1:
+                    self.stats["cont_in_block_body"] += 1
+                    seen_cont = True
+                out.append(it)
             elif x < 0.60 or depth >= 4:
-                out.append(self.fault())
+                it = self.fault(rate)
+                if block and seen_cont:
+                    self.stats["fault_behind_cont_in_block_body"] += 1
+                if block and len(it[4]) > 1:
+                    self.stats["cont_in_block_body"] += 1
+                    seen_cont = True
+                out.append(it)
             else:
                 c = self.construct(depth, mult)
                 if c[0] == "while":
@@ -125,29 +150,29 @@ class Gen:
         c = r.choice(["rept", "rept", "irp", "irp", "irpn", "irpc", "while", "call", "call", "incl", "dead"])
         if c == "rept":
             n = r.choice([1, 2, 3]) if room >= 3 else 1
-            return ("rept", n, self.body(depth + 1, mult * n))
+            return ("rept", n, self.body(depth + 1, mult * n, block=True))
         if c == "dead":
             if r.random() < 0.5:
-                return ("rept", 0, self.body(depth + 1, mult))
-            return ("while", 0, "cnt%d" % self.fresh_var(), self.body(depth + 1, mult))
+                return ("rept", 0, self.body(depth + 1, mult, block=True))
+            return ("while", 0, "cnt%d" % self.fresh_var(), self.body(depth + 1, mult, block=True))
         if c == "irp":
             n = r.choice([1, 2, 3]) if room >= 3 else 1
             args = [r.choice(ARG_POOL) for _ in range(n)]
-            return ("irp", 0, ["x%d" % self.fresh_var()], args, self.body(depth + 1, mult * n))
+            return ("irp", 0, ["x%d" % self.fresh_var()], args, self.body(depth + 1, mult * n, block=True))
         if c == "irpn":
             k = r.choice([1, 2, 2, 3])
             groups = r.choice([1, 2]) if room >= 2 else 1
             nargs = max(1, k * groups - r.choice([0, 0, 1]))
             nargs = max(nargs, k)  # at least `count` arguments are required
             args = [r.choice(ARG_POOL) for _ in range(nargs)]
-            return ("irp", k, ["p%d" % self.fresh_var() for _ in range(k)], args, self.body(depth + 1, mult * groups))
+            return ("irp", k, ["p%d" % self.fresh_var() for _ in range(k)], args, self.body(depth + 1, mult * groups, block=True))
         if c == "irpc":
             n = r.choice([1, 2, 3]) if room >= 3 else 1
-            s = "".join(r.choice(IRPC_POOL) for _ in range(n))
-            return ("irpc", "ch%d" % self.fresh_var(), s, self.body(depth + 1, mult * n))
+            s = irpc_string(r, n)
+            return ("irpc", "ch%d" % self.fresh_var(), s, self.body(depth + 1, mult * n, block=True))
         if c == "while":
             n = r.choice([1, 2]) if room >= 2 else 1
-            return ("while", n, "cnt%d" % self.fresh_var(), self.body(depth + 1, mult * n))
+            return ("while", n, "cnt%d" % self.fresh_var(), self.body(depth + 1, mult * n, block=True))
         if c == "call":
             if self.macros and r.random() < 0.4:
                 return ("call", r.choice(self.macros)[0])
@@ -534,7 +559,7 @@ def run(args):
     n_exp = {"quick": 260, "thorough": 15000}[args.tier]
     spec_fail, corr_fail, samples = [], [], []
     dist = dict(programs=0, messages=0, classA=0, classB=0, gnu=0, numeric=0, x0=0, x1=0, x2=0, chan_file=0, chan_1=0, chan_2=0, chan_default=0,
-                cont_lines=0, ids_verified=0, expect_scenarios=0, expect_blocks_spec=0, expect_blocks_skipped_guard=0, expect_msgs=0,
+                cont_lines=0, cont_in_block_body=0, fault_behind_cont_in_block_body=0, programs_with_fault_behind_cont_in_block_body=0, ids_verified=0, expect_scenarios=0, expect_blocks_spec=0, expect_blocks_skipped_guard=0, expect_msgs=0,
                 lncont_files=0, silent_faults=0)
     shapes = {}
     distinct = set()
@@ -609,6 +634,9 @@ def run(args):
             dist["x%d" % opts["x"]] += 1
             dist["chan_" + {"file": "file", "!1": "1", "!2": "2", "default": "default"}[opts["chan"]]] += 1
             dist["cont_lines"] += g.stats["cont_lines"]
+            dist["cont_in_block_body"] += g.stats["cont_in_block_body"]
+            dist["fault_behind_cont_in_block_body"] += g.stats["fault_behind_cont_in_block_body"]
+            dist["programs_with_fault_behind_cont_in_block_body"] += 1 if g.stats["fault_behind_cont_in_block_body"] else 0
             dist["silent_faults"] += sum(1 for f in g.faults.values() if not f["rep"])
             shape_stats(top, macros, 0, shapes)
             import shutil
